@@ -8,6 +8,7 @@
 //! parent, reported, and the search resumes after the offending case.
 //! String literals, error spans and `detect_error_kind` are compared with the Lean model `qm_c18`.
 mod inputs;
+mod typeport;
 #[path = "../c17/astutil.rs"]
 #[allow(dead_code)]
 mod astutil;
@@ -552,6 +553,7 @@ fn main() {
     } else {
         strings::part_decode(&mut ev, &mut model, &opts);
     }
+    typeport::part_types(&mut ev, &mut model, &opts);
     ev.set_extra("child_restarts", json!(restarts));
     ev.set_extra("model_requests", json!(model.requests));
     std::process::exit(ev.finish());
